@@ -82,6 +82,7 @@ type Lemma struct {
 }
 
 type ContractSet struct {
+	Immutable []string // heap key prefixes "H|<pkgname>.<Type>|<field>" never written after construction
 	ByKey  map[string]*Contract // "pkgpath|key"
 	Specs  map[string]*SpecFunc
 	Lemmas []*Lemma
@@ -313,6 +314,32 @@ func (cs *ContractSet) loadFile(path, repoDir string) error {
 				return fmt.Errorf("%s:%d: spec %s: %v", path, lineNo, m[1], err)
 			}
 			cs.Specs[m[1]] = &SpecFunc{Name: m[1], Params: fieldsComma(m[2]), Body: ex, Text: m[3], Opaque: opaque}
+		case "immutable":
+			// immutable Type.field: set by the constructor only (checked), so no call changes it
+			cur, curLemma = nil, nil
+			for _, it := range fieldsComma(rest) {
+				i := strings.Index(it, ".")
+				if i < 0 {
+					return fmt.Errorf("%s:%d: immutable Type.field", path, lineNo)
+				}
+				pn := pkgPath
+				if j := strings.LastIndex(pn, "/"); j >= 0 {
+					pn = pn[j+1:]
+				}
+				cs.Immutable = append(cs.Immutable, "H|"+pn+"."+it[:i]+"|"+it[i+1:])
+			}
+		case "iface":
+			// iface <pkgname.Type> <Method>(params) (results): contract attached to an interface method
+			curLemma = nil
+			m := regexp.MustCompile(`^(\S+)\s+(\w+)\s*\(([^)]*)\)\s*(?:\(([^)]*)\))?\s*$`).FindStringSubmatch(rest)
+			if m == nil {
+				return fmt.Errorf("%s:%d: bad iface header %q", path, lineNo, body)
+			}
+			key := "type " + m[1] + " method " + m[2]
+			cur = &Contract{Key: key, Pkg: pkgPath, Loops: map[int]*LoopContract{}, File: path, Line: lineNo, Extern: true, Trusted: true}
+			cur.Params = fieldsComma(m[3])
+			cur.Results = fieldsComma(m[4])
+			cs.ByKey["|"+key] = cur
 		case "lemma":
 			cur = nil
 			curLemma = &Lemma{Name: rest, Pkg: pkgPath, File: path, Line: lineNo}
